@@ -50,15 +50,15 @@ type Faults struct {
 	// Warp, if set, is the candidate mapping of a pluggable curve: the curve uses Warp(kind, I_L, parent scalar) instead
 	// of I_L as the key material / additive shift (kind is "master" or "child"; the parent scalar is nil when the
 	// curve does not know it). The validity rule of the curve is then applied to the mapped candidate.
-	Warp  func(kind string, il []byte, parent *big.Int) []byte
+	Warp  func(kind string, il []byte, parent *big.Int, parentPub []byte) []byte
 	calls int
 }
 
-func (f *Faults) warp(kind string, il []byte, parent *big.Int) []byte {
+func (f *Faults) warp(kind string, il []byte, parent *big.Int, parentPub []byte) []byte {
 	if f.Warp == nil {
 		return il
 	}
-	return f.Warp(kind, il, parent)
+	return f.Warp(kind, il, parent, parentPub)
 }
 
 // ErrKind is the outcome class of a model operation.
@@ -146,7 +146,7 @@ func Master(c *SlipCurve, seed []byte, f *Faults) (*XKey, ErrKind) {
 		}
 		cand := il
 		if !rej && c.EC != nil {
-			cand = f.warp("master", il, nil)
+			cand = f.warp("master", il, nil, nil)
 			k := new(big.Int).SetBytes(cand)
 			if k.Sign() == 0 || k.Cmp(c.EC.N) >= 0 {
 				rej = true
@@ -188,7 +188,7 @@ func (x *XKey) Child(index uint32, f *Faults) (*XKey, ErrKind) {
 			case c.EC == nil:
 				child = append([]byte{}, il...)
 			case x.Private:
-				k := new(big.Int).SetBytes(f.warp("child", il, new(big.Int).SetBytes(x.Key)))
+				k := new(big.Int).SetBytes(f.warp("child", il, new(big.Int).SetBytes(x.Key), nil))
 				if k.Cmp(c.EC.N) >= 0 {
 					rej = true
 					break
@@ -205,7 +205,7 @@ func (x *XKey) Child(index uint32, f *Faults) (*XKey, ErrKind) {
 				if x.Secret != nil {
 					parent = new(big.Int).SetBytes(x.Secret)
 				}
-				k := new(big.Int).SetBytes(f.warp("child", il, parent))
+				k := new(big.Int).SetBytes(f.warp("child", il, parent, x.Key))
 				if k.Cmp(c.EC.N) >= 0 {
 					rej = true
 					break
